@@ -5,6 +5,7 @@ package execute
 import (
 	"context"
 	"fmt"
+	"math"
 	"sort"
 	"testing"
 	"time"
@@ -273,7 +274,7 @@ func vC07Commit(c cciptypes.ChainSelector, lo, hi cciptypes.SeqNum, root uint64,
 
 var vC07Shapes = []string{
 	"honest", "honest", "honest",
-	"repeat-commit", "exec-variant", "split-range", "overlap-range", "exec-outside",
+	"repeat-commit", "exec-variant", "ts-variant", "split-range", "overlap-range", "exec-outside",
 	"rekey-msg", "rechain-msg", "msg-variant", "unsupported-msgs",
 	"costly-repeat", "costly-foreign", "nonce-variant", "nonce-rechain",
 	"token-variant", "token-missing-slot", "token-rekey",
@@ -475,6 +476,26 @@ func vC07Build(cr *vRand, shape string, forceN, forceF int, distinctF bool) (*vC
 					l[0].ExecutedMessages = []cciptypes.SeqNum{l[0].SequenceNumberRange.Start()}
 				} else {
 					vC07AddCommit(ob, c0, vC07Commit(c0, 500, 502, 777, []cciptypes.SeqNum{501}))
+				}
+			case "ts-variant": // same report, timestamp / block differing by an amount an identity function could lose
+				// (1 ns, 1 s, 2^32 s, 2^63 ns, exactly 2^64 ns = int64 nanoseconds wrapping once — seeded change C07-11)
+				if l := ob.CommitReports[c0]; len(l) > 0 {
+					switch cr.Intn(6) {
+					case 0:
+						l[0].Timestamp = l[0].Timestamp.Add(time.Nanosecond)
+					case 1:
+						l[0].Timestamp = l[0].Timestamp.Add(time.Second)
+					case 2:
+						l[0].Timestamp = l[0].Timestamp.Add(time.Duration(1<<32) * time.Second)
+					case 3:
+						l[0].Timestamp = l[0].Timestamp.Add(time.Duration(math.MaxInt64)).Add(1)
+					case 4:
+						l[0].Timestamp = l[0].Timestamp.Add(time.Duration(math.MaxInt64)).Add(time.Duration(math.MaxInt64)).Add(2)
+					default:
+						l[0].BlockNum += 1 << 32
+					}
+				} else {
+					vC07AddCommit(ob, c0, vC07Commit(c0, 500, 502, 777, nil))
 				}
 			case "split-range":
 				if l := ob.CommitReports[c0]; len(l) > 0 && l[0].SequenceNumberRange.End() > l[0].SequenceNumberRange.Start() {
